@@ -632,11 +632,11 @@ PROPS = {
         "level": "other", "explanation": "", "assumptions": ["memory safety of the unsafe blocks themselves is modelled (bounds theorems on the model) and observed (canaries), not verified"],
     },
     "C16": {
-        "module": "DnsModel.Theorems.C16", "theorems": [],
+        "module": "DnsModel.Theorems.C16", "theorems": ["Dns.C16.private_slot", "Dns.C16.other_threads_commute", "Dns.C16.read_preserves"],
         "families": [{"name": "errslots-exhaustive", "quick": 0, "thorough": 0, "fixed": True}, {"name": "errslots", "quick": 300, "thorough": 5000}],
         "oracle": oracle_c16, "nontrivial": lambda c, a: "f" in c, "shrink": False,
         "rule": "all 20 interleavings of 2 threads x 3 steps x 36 assignments of step kinds (exhaustive), plus sampled 3- and 4-thread schedules; real threads stepped in the scripted global order",
-        "level": "other", "explanation": "", "assumptions": ["thread_local! gives each thread its own cell (what the schedules probe)"],
+        "level": "proof", "explanation": "", "assumptions": ["thread_local! gives each thread its own cell (what the schedules probe)"],
     },
     "C17": {
         "module": "DnsModel.Theorems.C17", "theorems": [],
@@ -654,7 +654,7 @@ PROPS = {
     },
     "C12": {
         "module": "DnsModel.Theorems.C12",
-        "theorems": [],
+        "theorems": ["Dns.C12.set_flags_frame", "Dns.C12.set_response_frame", "Dns.C12.set_tid_frame", "Dns.C12.set_rcode_frame", "Dns.C12.set_opcode_frame", "Dns.C12.getters"],
         "families": [
             {"name": "hdr-quick", "quick": 0, "thorough": 0, "fixed": True, "only": "quick"},
             {"name": "hdr-full", "quick": 0, "thorough": 0, "fixed": True, "only": "thorough"},
@@ -663,7 +663,7 @@ PROPS = {
         "nontrivial": lambda c, a: True,
         "rule": "flag words x setter arguments: quick = 1024 words incl. all single-bit words and mask constants x (6 fixed + 11 single-bit + 1 random) set_flags arguments, "
                 "8 opcode / 8 rcode arguments, both response values, a random tid; thorough = all 65536 words x (6 fixed + all 32 single-bit + 8 random) arguments; every case is distinct",
-        "level": "other",
+        "level": "proof",
         "shrink": False,
         "explanation": "",
         "assumptions": [],
@@ -714,7 +714,7 @@ MANIFEST_TEXT = {
             "note": NOTE, "technique": "step-wise correspondence + abstract-message oracle"},
     "C11": {"text": "Exhaustive deletion walks (every subset of sections of size 0..5, four sections, two layouts, OPT absent/first/last): termination, exact removal, void-record on second delete, no deleted record yielded again, survivors in order, matching count, emptied section absent." + PENDING,
             "note": NOTE, "technique": "exhaustive small-scope correspondence + walk oracle"},
-    "C12": {"text": "Model of the five header setters and six getters; real behaviour compared with the model and with the frame condition computed from RFC 1035 field positions, exhaustively over all 65536 flag words in the thorough tier." + PENDING,
+    "C12": {"text": "Lean theorems for all header words and all arguments: set_flags changes only bytes 2-3, keeps opcode and rcode (div/mod by position), sets each of QR AA TC RD RA Z AD CD to the argument's bit and ignores the argument's upper half; set_opcode / set_rcode / set_response / set_tid change only their field; every getter returns the stored field. Real behaviour compared with the model and with the frame condition computed from RFC 1035 field positions, exhaustively over all 65536 flag words in the thorough tier.",
             "note": NOTE, "technique": "exhaustive correspondence over flag words + div/mod oracle"},
     "C13": {"text": "Deterministic recogniser mirroring the chomp combinator tree + builders; real synthesis compared with the model and with an independent Python synthesiser of the RFC 1035 wire form on grammar-derived, damaged and arbitrary texts, and the result inserted into valid packets." + PENDING,
             "note": NOTE + " chomp1 combinator semantics read from the vendored source; Ipv6Addr::from_str modelled.", "technique": "model/implementation correspondence + reference synthesiser oracle"},
